@@ -429,10 +429,15 @@ def run(ctx):
     ctx.rule('R-C01c', 'every place the library keeps a pointer to a user object (lists, trees, markers, poll array, heap '
                        'slot, kernel registration, sub-object cookies) is discovered and undone by that kind\'s unregister on every path', floor=18)
     ctx.rule('R-C01d', 'no user callback runs between the kernel wait and the last read of the event array it filled', floor=4)
+    ctx.rule('R-C01e', 'the array slot that holds a descriptor is released by unregister: on every path of the kind\'s unregister '
+                       '(poll-array methods, helpers inlined) the slot addressed by the index the descriptor had on entry is overwritten '
+                       'with something that is not the descriptor, or that index is found equal to a value derived from the live count '
+                       'of the array (the slot is dropped from the live range), or the descriptor had no slot / keeps its index', floor=1)
     ctx.section(stale)
     ctx.section(one_shot)
     ctx.section(holders)
     ctx.section(batch_live)
+    ctx.section(slot_released)
 
 
 def stale(ctx):
@@ -988,3 +993,213 @@ def _batch_live_table(ctx, prog, t, slots, slot_seeds):
            detail=('%s is read after the user callback at %s' % (canon(bad[0][2][0]) if isinstance(bad[0][2][0], dict) else describe(e0), relpath(bad[0][1]))) if bad else
                   '%d reads of the kernel-filled array, none after a user callback' % nreads,
            path=path_to(g, e0) if e0 else None, fn=f.q)
+
+
+# --------------------------------------------------------------------------
+# R-C01e
+# --------------------------------------------------------------------------
+
+def fd_slot_seeds(prog, found):
+    """the record fields through which the array whose slots hold descriptor pointers is reached (from the discovered holder)"""
+    seeds = set()
+    for (f, e) in found.get(FD_SLOT, []):
+        l = strip(e['lhs'])
+        p = l['base'] if l.get('k') == 'index' else l['e']
+        seeds |= {d for d in h01.pointer_closure(f, h01.designators(p)) if d[0] == 'fld'}
+    return seeds
+
+
+def slot_count_keys(g, rec, idxkeys):
+    """(record, field) of the scalar(s), not part of the object, from which the object's slot index is taken when it gets a
+    slot (`obj->idx = st->count++`, also through locals): the live count of the slot array"""
+    keys = set()
+
+    def pred(y):
+        if y.get('k') == 'member' and not y.get('trecord') and '*' not in str(y.get('type', '')) \
+                and (y.get('record'), y['field']) not in idxkeys:
+            x = y
+            while isinstance(x, dict) and x.get('k') == 'member':
+                x = strip(x['base'])
+            if isinstance(x, dict) and x.get('k') == 'var' and norm_rec(x.get('record')) != rec:
+                keys.add((y.get('record'), y['field']))
+        return False
+    for e in g.events():
+        if e['ev'] == 'store' and e.get('op') == '=' and 'rhs' in e and last_member(e['lhs']) in idxkeys:
+            h01.depends_on(g, e['rhs'], pred)
+    return keys
+
+
+def _slot_addr(x):
+    """(array pointer, index expression) of the slot lvalue `a[i]` / `*(a + i)`, or of the slot address `&a[i]` / `a + i`"""
+    y = strip(x)
+    if not isinstance(y, dict):
+        return None
+    if y.get('k') == 'addr':
+        return _slot_addr(y['e'])
+    if y.get('k') == 'deref':
+        y = strip(y['e'])
+        if not isinstance(y, dict):
+            return None
+    if y.get('k') == 'index':
+        return y['base'], y['idx']
+    if y.get('k') == 'bin' and y.get('op') == '+':
+        return y['l'], y['r']
+    return None
+
+
+def _check_slot_released(g, un, rec, idxkeys, cntkeys, free, T):
+    """Path-sensitive forward analysis over alternatives (sets of facts):
+         'fld'        the index field of the object being unregistered still holds the value it had on entry
+         ('loc', x)   the local x holds that entry value
+         ('slotp', p) the local p holds the address of the slot of the descriptor array at that entry index
+         'nil'        the entry value was found equal to `free`: the object had no slot
+         'rel'        the slot at the entry index was overwritten with something that is not the object, or the entry
+                      index was found equal to a value derived from the live count of the array
+       At every return each alternative must contain 'rel', 'nil' or 'fld'."""
+    objs = h01.object_vars(g, un, rec)
+    if not objs:
+        raise AnalysisBroken('%s: no parameter of kind %s' % (un.name, rec))
+
+    def is_count(y):
+        return y.get('k') == 'member' and (y.get('record'), y['field']) in cntkeys
+
+    def is_entry(x, A):
+        y = strip(x)
+        if not isinstance(y, dict):
+            return False
+        if y.get('k') == 'member' and (y.get('record'), y['field']) in idxkeys and (h01.base_var_names(y) & objs):
+            return 'fld' in A
+        return any(('loc', n) in A for n in h01.var_names(x))
+
+    def in_array(p):
+        return bool(h01.designators(p) & T)
+
+    def tr1(e, A):
+        if e['ev'] == 'decl':
+            return frozenset(f for f in A if not (isinstance(f, tuple) and f[1] == e['name']))
+        if e['ev'] != 'store':
+            return A
+        l = strip(e['lhs'])
+        if not isinstance(l, dict):
+            return A
+        plain = e.get('op') == '=' and 'rhs' in e
+        if l.get('k') == 'var':
+            x = l['name']
+            ent = plain and is_entry(e['rhs'], A)
+            sa = _slot_addr(e['rhs']) if plain and isinstance(strip(e['rhs']), dict) and strip(e['rhs']).get('k') in ('addr', 'bin') else None
+            slotp = bool(sa) and in_array(sa[0]) and is_entry(sa[1], A)
+            A = frozenset(f for f in A if not (isinstance(f, tuple) and f[1] == x))
+            if ent:
+                A = A | {('loc', x)}
+            if slotp:
+                A = A | {('slotp', x)}
+            return A
+        if last_member(e['lhs']) in idxkeys:
+            if plain and is_entry(e['rhs'], A):
+                return A            # the same value, whichever object is written
+            return A - {'fld'}       # the object's own field, or one that may alias it
+        if l.get('k') in ('index', 'deref') and not lvalue_steps(e['lhs']) and plain and not (h01.var_names(e['rhs']) & objs):
+            sa = _slot_addr(l)
+            if sa and in_array(sa[0]) and is_entry(sa[1], A):
+                return A | {'rel'}
+            if l.get('k') == 'deref' and any(('slotp', n) in A for n in h01.var_names(l['e'])):
+                return A | {'rel'}
+        return A
+
+    def tr(e, S):
+        return frozenset(tr1(e, A) for A in S)
+
+    def edge(blk, si, S):
+        atoms = [a for a in h01.edge_atoms(blk, si) if a[0] in ('==', '!=') and isinstance(a[3], dict) and isinstance(a[4], dict)]
+        if not atoms:
+            return S
+        out = set()
+        for A in S:
+            dead = False
+            for (op, lc, rc_, l, r) in atoms:
+                for (a, b) in ((l, r), (r, l)):
+                    if not is_entry(a, A) or is_entry(b, A):
+                        continue
+                    if h01.const_of(b) == free:
+                        if op == '==':
+                            A = A | {'nil'}
+                        elif 'nil' in A:
+                            dead = True
+                    elif op == '==' and h01.depends_on(g, b, is_count):
+                        A = A | {'rel'}
+            if not dead:
+                out.add(A)
+        return frozenset(out) if out else None
+
+    def join(a, b):
+        u = a | b
+        if len(u) > 48:
+            c = None
+            for A in u:
+                c = A if c is None else (c & A)
+            return frozenset([c])
+        return u
+    _, ev_in = forward(g, frozenset([frozenset(['fld'])]), tr, join, edge=edge)
+    bad, n = [], 0
+    for p in exit_points(g):
+        S = ev_in.get(p)
+        if S is None:
+            continue
+        n += 1
+        for A in S:
+            if not (A & {'rel', 'nil', 'fld'}):
+                bad.append(p)
+                break
+    if not n:
+        raise AnalysisBroken('%s: no return reached' % un.name)
+    return not bad, bad
+
+
+def slot_released(ctx):
+    """R-C01e.  The poll-array methods keep a pointer to every descriptor that has events wanted in a slot of an array, at the
+    index the descriptor remembers.  R-C01c (poll-slot) demands that the descriptor forgets its index; this rule demands
+    that the *array* forgets the descriptor: the slot is overwritten (by the entry that is moved into the hole) or falls out
+    of the live range (it was the last one).  The array, the index field and the live count are identified by role (the
+    discovered slot holder; the field the slot address is computed from; what the index is taken from when a slot is
+    assigned), the slot by the value the index field had when unregister was entered."""
+    prog = ctx.prog
+    found = discover_holders(prog)
+    rec = FD_SLOT[1]
+    spec = HOLDERS[FD_SLOT]
+    un = prog.fn(UNREGISTER[rec]) if prog.has_fn(UNREGISTER[rec]) else None
+    try:
+        if FD_SLOT not in found:
+            raise AnalysisBroken('no array slot that holds a descriptor pointer is found any more')
+        if un is None:
+            raise AnalysisBroken('unregister call %s of the kind not found' % UNREGISTER[rec])
+        tables = slot_array_tables(prog, found)
+        if not tables:
+            raise AnalysisBroken('no poll-array method found')
+        idxkeys = slot_index_keys(prog, found, FD_SLOT, rec)
+        if not idxkeys:
+            raise AnalysisBroken('index field of the %s array slot not found' % rec)
+        seeds = fd_slot_seeds(prog, found)
+        if not seeds:
+            raise AnalysisBroken('the array of descriptor slots cannot be named')
+    except AnalysisBroken as ex:
+        ctx.ob('R-C01e', 'slot-released:%s' % rec, False, loc=un.loc if un else None, detail='cannot be shown: %s' % ex,
+               fn=un.q if un else None)
+        return
+    for t in tables:
+        tag = t.replace('iv_fd_poll_method_', '')
+        try:
+            slots = prog.method_tables()[t]
+            nf = prog.resolve(*slots['notify_fd'])
+            cntkeys = slot_count_keys(h01.inlined(prog, nf), rec, idxkeys)
+            g = h01.inlined(prog, un, method_table=t, expand_methods=True, prune=True)
+            T = h01.pointer_closure(g, seeds)
+            ok, bad = _check_slot_released(g, un, rec, idxkeys, cntkeys, spec['free'], T)
+            det = ('at every return of %s the slot of the descriptor array at the index the descriptor had on entry (%s) was overwritten '
+                   'with another value, or that index equals a value derived from the live count (%s), or the descriptor had no '
+                   'slot / keeps its index' % (un.name, '/'.join(sorted(k[1] for k in idxkeys)),
+                                               '/'.join(sorted(k[1] for k in cntkeys)) or 'not found'))
+            e0 = g.blocks[bad[0][0]].events[bad[0][1]] if (bad and bad[0][1] < len(g.blocks[bad[0][0]].events)) else None
+        except AnalysisBroken as ex:
+            ok, det, e0 = False, 'cannot be shown: %s' % ex, None
+        ctx.ob('R-C01e', 'slot-released:%s [%s]' % (rec, tag), ok, loc=un.loc, detail=det,
+               path=path_to(g, e0) if (not ok and e0 is not None) else None, fn=un.q)
